@@ -4,7 +4,10 @@ go 1.25.0
 
 require (
 	github.com/diskfs/go-diskfs v0.0.0
+	github.com/klauspost/compress v1.18.5
+	github.com/pierrec/lz4/v4 v4.1.26
 	github.com/sirupsen/logrus v1.9.4
+	github.com/ulikunitz/xz v0.5.15
 	pgregory.net/rapid v1.3.0
 )
 
@@ -13,10 +16,7 @@ require (
 	github.com/djherbis/times v1.6.0 // indirect
 	github.com/elliotwutingfeng/asciiset v0.0.0-20260129054604-cfde2086bc57 // indirect
 	github.com/google/uuid v1.6.0 // indirect
-	github.com/klauspost/compress v1.18.5 // indirect
-	github.com/pierrec/lz4/v4 v4.1.26 // indirect
 	github.com/pkg/xattr v0.4.12 // indirect
-	github.com/ulikunitz/xz v0.5.15 // indirect
 	golang.org/x/sys v0.43.0 // indirect
 )
 
